@@ -410,6 +410,17 @@ func (x *Exec) cxCallTerm(env *cxEnv, y *cxCall) Term {
 			r = "(s_base " + v.S + ")"
 		}
 		return tBool(fmt.Sprintf("(and (not (= %s nilRef)) (>= (alloc %s) %s))", r, r, env.old.clk))
+	case "IsSignature":
+		v := x.cxEval(env, y.Args[0])
+		for _, imp := range x.unit.Pkg.Imports {
+			if imp.PkgPath == "go/types" && imp.Types != nil {
+				if o := imp.Types.Scope().Lookup("Signature"); o != nil {
+					return tBool(sEq("(itag "+v.S+")", fmt.Sprint(x.d.tag(types.NewPointer(o.Type())))))
+				}
+			}
+		}
+		x.undecide("contract: IsSignature needs go/types")
+		return tBool("true")
 	case "IsDeclaredFunc":
 		// the types.Object is a *types.Func (a declared function or method), not a variable, builtin, type name or nil
 		v := x.cxEval(env, y.Args[0])
